@@ -15,6 +15,7 @@
 (*           it does not decode, "na" when Close failed)                   *)
 (*  GetWritten v, sinkLen                                                  *)
 (*  S_WRITE  n, ok     S_CLOSE ok       (calls on the underlying sink)     *)
+(*  Hang     op (the call did not return within the watchdog delay)        *)
 (*  W_SPAWN  first, n  W_JOIN                                              *)
 (*  E_START  id, got, want  (digest of the data handed to task id, digest  *)
 (*           of the id-th block-size slice of the data written so far)     *)
@@ -132,6 +133,7 @@ Next ==
                    [] e.ev = "E_REL"      -> Rel(e)
                    [] e.ev = "E_FIN0"     -> Fin0(e)
                    [] e.ev = "E_FIN1"     -> Fin1(e)
+                   [] e.ev = "Hang"     -> Check(s, FALSE, "C07_call_never_returns")
                    [] e.ev = "Out"        -> Out(e)
                    [] OTHER               -> s
          /\ outs' = IF e.ev = "Out" /\ ~Known(e.key) THEN Append(outs, <<e.key, e.dig>>) ELSE outs
